@@ -104,7 +104,12 @@ CPPManifest(const CPPPreprocessor &parser, const string &args, const cppyyltype 
     parse_parameters(args, p, parameter_names);
     _num_parameters = parameter_names.size();
 
-    p++;
+    if (p < args.size()) {
+      // Skip the closing parenthesis.
+      p++;
+    } else {
+      parser.error("missing ')' in macro parameter list", loc);
+    }
   } else {
     _has_parameters = false;
     _num_parameters = 0;
